@@ -14,6 +14,10 @@
 //   open <g> | autoopen <g> gate g opens at the next kWaiterBlocked event or after the next wait returns
 //   pfor <d> <b> <e> <tc>
 //   wait <d> <q>            q = 0: waitForParallelFinish, else Queue::wait
+//   xwait <a> <b> <g>       a parallel task of dispatcher a calls b.waitForParallelFinish() (a worker of one dispatcher
+//                           helps to drain another); gate g is opened once b's pending ungated tasks have begun (or
+//                           after 200 ms); then the script thread waits for a. Use with `trace 0`: the trace check
+//                           knows one external thread per dispatcher.
 //   destroy <d>
 // output: "O ..." one line per op (canonical, schedule independent unless a property is violated),
 //         "T <seq> <d> <event> <thread> <arg>" the trace, printed at the end.
@@ -61,6 +65,7 @@ struct TaskRec {
     int queue = 0;
     int gate = -1;
     uint32_t work = 0;
+    int xwait = -1;              // >= 0: the body waits for the parallel tasks of that dispatcher
     std::atomic<uint32_t> begun{0};
     std::atomic<uint32_t> ended{0};
     std::atomic<uint64_t> begin_stamp{0};
@@ -211,6 +216,7 @@ void taskBody(Disp* D, TaskRec* T, ThreadId tid_arg) {
         if (prev >= static_cast<int64_t>(T->id)) D->order_viol.fetch_add(1);
     }
     if (T->gate >= 0) waitGate(T->gate);
+    if (T->xwait >= 0) g_disps[T->xwait]->d->waitForParallelFinish();
     volatile uint64_t sink = 0;
     for (uint32_t i = 0; i < T->work; ++i) {
         sink += i;
@@ -450,6 +456,31 @@ int main() {
             logEvent(d, 0, 0, q, "X_waitReturn");
             if (pending_autoopen_after_wait >= 0) { openGate(pending_autoopen_after_wait); pending_autoopen_after_wait = -1; g_autoopen.store(-1); }
             std::printf("O wait %d %d notdone=%u [%s] bad_payload=%u workers_running=%d\n", d, q, notdone, which.c_str(), bad_payload, active);
+        }
+        else if (op == "xwait") {
+            int a = 0, b = 0, g = -1; in >> a >> b >> g;
+            Disp& A = disp(a);
+            Disp& B = disp(b);
+            if (a == b) { std::printf("O error xwait needs two dispatchers\n"); std::fflush(stdout); return 2; }
+            TaskRec* T = newTask(A, 0, -1, 0);
+            T->xwait = b;
+            Disp* Ap = &A;
+            tl_cur_disp = a;
+            A.d->addParallelTask([Ap, T](ThreadId tid) { taskBody(Ap, T, tid); });
+            if (!g_trace_on) A.submitted.fetch_add(1);
+            while (T->begun.load() == 0) std::this_thread::yield();
+            const auto t0 = std::chrono::steady_clock::now();
+            for (;;) {
+                bool all = true;
+                for (auto& t : B.tasks) if (t.gate < 0 && t.begun.load() == 0) all = false;
+                if (all || std::chrono::steady_clock::now() - t0 > std::chrono::milliseconds(200)) break;
+                std::this_thread::yield();
+            }
+            if (g >= 0) openGate(g);
+            A.d->waitForParallelFinish();
+            uint32_t notdone = 0;
+            for (auto& t : B.tasks) if (t.queue == 0 && t.ended.load() != 1u) ++notdone;
+            std::printf("O xwait %d %d helper_done=%u notdone=%u\n", a, b, T->ended.load(), notdone);
         }
         else if (op == "destroy") {
             int d = 0; in >> d;
